@@ -30,11 +30,16 @@ def strategy(draw):
     if mode == 'partial' and len(spec['lfs']) > 1:
         # some kinds share a set name across logical files, others are kept apart
         for i, lf in enumerate(spec['lfs']):
+            own = {}        # decided per (logical file, kind): objects of one type stay in one set (C07 finding)
             for op in lf['ops']:
                 if op['t'] in ('nfdata',):
                     continue
-                if op['t'] in ('origin', 'channel', 'frame', 'no_format') or draw(st.booleans()):
+                if op['t'] not in own:
+                    own[op['t']] = op['t'] in ('origin', 'channel', 'frame', 'no_format') or draw(st.booleans())
+                if own[op['t']]:
                     op['set'] = f"{op['t'].upper()}-LF{i}"
+                else:
+                    op.pop('set', None)
     if spec['write'].get('source') == 'dict' and len(spec['lfs']) > 1:
         # a dict passed at write() serves all logical files: dataset names must be distinct across them
         for i, lf in enumerate(spec['lfs']):
